@@ -101,14 +101,25 @@ func report(g *Gen, p *PropConfig, bl *Baseline, out *CheckOutcome, tier string,
 		errFuncs = append(errFuncs, f+": "+e)
 	}
 	sort.Strings(errFuncs)
+	var brokenFuncs []string
 	for f := range out.FuncErrs {
-		// only functions that carry claimed obligations make the property undecidable
+		// a function that carries claimed obligations and no longer fits its contract: none of those
+		// obligations can be discharged on this tree
+		n := 0
 		for id := range bl.Claimed {
 			if strings.HasPrefix(id, f+"/") {
-				undecided = "function " + f + " cannot be verified on this tree: " + out.FuncErrs[f]
+				n++
+			}
+		}
+		if n > 0 {
+			if strings.Contains(out.FuncErrs[f], "function not found") {
+				undecided = "function " + f + " is gone from this tree"
+			} else {
+				brokenFuncs = append(brokenFuncs, f)
 			}
 		}
 	}
+	sort.Strings(brokenFuncs)
 
 	// replay / violation files
 	replayDir := filepath.Join(env("VERIF_REPLAY_DIR", filepath.Join(verif, "replay")), p.ID)
@@ -145,6 +156,12 @@ func report(g *Gen, p *PropConfig, bl *Baseline, out *CheckOutcome, tier string,
 		vioLines = append(vioLines, line)
 	}
 
+	for _, f := range brokenFuncs {
+		os.MkdirAll(replayDir, 0o755)
+		path := filepath.Join(replayDir, sanitize(f)+"_contract.txt")
+		os.WriteFile(path, []byte(fmt.Sprintf("property: %s\nfunction: %s\nstatus: the contract that was verified for this function on the unchanged tree no longer applies to its code, so none of its obligations can be discharged\nreason: %s\n", p.ID, f, out.FuncErrs[f])), 0o644)
+		vioLines = append(vioLines, fmt.Sprintf("VIOLATION property=%s replay=%s obligation=%s/contract no-failing-input-found", p.ID, path, f))
+	}
 	// samples
 	var samples []interface{}
 	for _, r := range out.Results {
